@@ -588,6 +588,13 @@ impl Allocator {
     verif::INTERN_CHECKS.fetch_add(1, Relaxed);
 
     // every marked string must be the interned string for its content
+    // the newest object may be a string manage_str is about to insert
+    let in_flight = self
+      .nursery_obj_heap
+      .last()
+      .filter(|handle| handle.kind() == ObjectKind::String)
+      .map(|handle| handle.verif_ref().to_str().as_ptr() as usize);
+
     let mut seen: HashMap<&str, usize> = HashMap::new();
     for handle in self.obj_heap.iter().chain(self.nursery_obj_heap.iter()) {
       if handle.kind() != ObjectKind::String || !handle.marked() {
@@ -616,6 +623,7 @@ impl Allocator {
           address,
           interned.as_ptr() as usize
         )),
+        None if in_flight == Some(address) => (),
         None => verif::violation(format!(
           "intern: live string {:?} at {:#x} missing from table",
           content, address
